@@ -28,8 +28,8 @@ import (
 	"path/filepath"
 	"regexp"
 	"sort"
-	"sync"
 	"strings"
+	"sync"
 	"sync/atomic"
 	"testing"
 	"time"
@@ -195,7 +195,8 @@ func runRound(c Case, res *Result) {
 func isTransportError(msg string) bool {
 	for _, pat := range []string{"dial tcp", "i/o timeout", "connection reset", "broken pipe", "EOF", "context deadline exceeded",
 		"DeadlineExceeded", "Unavailable", "connection refused", "cannot assign requested address", "too many open files",
-		"Client.Timeout", "timeout awaiting response headers", "transport is closing", "connection error"} {
+		"Client.Timeout", "timeout awaiting response headers", "transport is closing", "connection error",
+		"response error" /* all the grpc guns log for a failed call; the target only ever answers OK */} {
 		if strings.Contains(msg, pat) {
 			return true
 		}
@@ -318,21 +319,29 @@ func parseCrash(out string) *raceInfo {
 
 // classify names the listed finding a failure belongs to ("" = none).
 func classify(msg string, ri *raceInfo, res *Result) string {
-	if ri != nil {
-		for _, f := range ri.Frames {
-			switch {
-			case strings.Contains(f, "lib/mp.(*NextIterator).Rand"):
-				return findingRandIter
-			case strings.Contains(f, "lib/str.RandStringRunes"):
-				return findingRandString
-			case strings.Contains(f, "guns/grpc/scenario.(*TextTemplater).Apply"):
-				return findingGRPCMeta
+	if ri != nil && len(ri.Tops) > 0 {
+		// every conflicting stack must end (innermost pandora frame) in the code the finding names
+		sigs := map[string][]string{
+			findingRandIter:   {"lib/mp.(*NextIterator).Rand"},
+			findingRandString: {"lib/str.RandStringRunes"},
+			findingGRPCMeta:   {"guns/grpc/scenario.(*TextTemplater).Apply", "guns/grpc/scenario.(*Gun).shootStep"},
+		}
+		for _, id := range []string{findingRandIter, findingRandString, findingGRPCMeta} {
+			all := true
+			for _, top := range ri.Tops {
+				hit := false
+				for _, sig := range sigs[id] {
+					if strings.HasSuffix(top, sig) {
+						hit = true
+					}
+				}
+				all = all && hit
+			}
+			if all {
+				return id
 			}
 		}
-		// the reader side of the same map: metadata.New(step.Metadata) / answer logging in shootStep
-		if len(ri.Frames) > 0 && strings.Contains(ri.Frames[0], "guns/grpc/scenario.(*Gun).shootStep") {
-			return findingGRPCMeta
-		}
+		return ""
 	}
 	if res != nil {
 		for _, ch := range res.Changed {
@@ -531,6 +540,12 @@ func checkWith(c Case, o *vf.Obs, r *vf.Run) error {
 	}
 	if oc.finding != "" {
 		o.Note("finding", oc.finding)
+		if os.Getenv("VERIF_REPLAY") != "" && r.IsKnown(oc.finding) {
+			// a saved regression case of a finding that is listed as known: still there, not a new violation.
+			// (Generated cases never get here: the generator steers around listed findings.)
+			r.KnownHit(oc.finding)
+			return nil
+		}
 		return fmt.Errorf("[%s] %v", oc.finding, oc.err)
 	}
 	return oc.err
